@@ -26,6 +26,13 @@ CLAIMED["C10"] = dict(
     ref="DESIGN.md 4/C10",
 )
 
+CLAIMED["C18"] = dict(
+    technique="abstract interpretation of NFA.from_ast into a gadget table; per-constructor proof obligations (black-box language equivalence on product automata, interface and terminal invariants); effect extraction of add_transition; must-flow on match_symbol; exact DFA comparison of the extracted construction against an independent reference engine on a pattern corpus",
+    text="Decides, for every pattern by induction over its AST, that the Thompson construction the code performs accepts the constructor languages (5 constructors x 3 obligations), provided transitions are directed; decides that property of add_transition; checks the simulation's shape. Reports the implemented-vs-reference language difference with a shortest witness word for corpus and in-repo patterns. Does not decide the recursive-descent parser's precedence or valid_next_symbols.",
+    note="Trusted: vcheck.regex (own parser, subset construction, product comparison); CPython set/dict semantics. Known finding K1 (bidirectional epsilon edges) and five listed consequences are reported as KNOWN-FINDING.",
+    ref="DESIGN.md 4/C18",
+)
+
 NOT_APPLICABLE = {
     "C12": "arithmetic over unbounded integers (quantisation error bounds, monotonicity of a rational formula): no structural clause; needs algebra/solver or execution",
     "C13": "partition/telescoping identities of floor arithmetic on runtime sizes; the functions are spec-pinned arithmetic with nothing to decide from code shape",
